@@ -629,7 +629,14 @@ impl ObjectReceiver {
             return;
         }
 
-        while let Some(item) = self.cache.pop() {
+        // Replay the packets in their order of arrival: the packet carrying the
+        // close object flag is normally the last one, it must not be pushed first
+        let cache = std::mem::take(&mut self.cache);
+        for item in cache {
+            if self.state != State::Receiving {
+                // Completed or closed by a previous packet
+                break;
+            }
             #[cfg(feature = "verif")]
             crate::verif::step("ObjectReceiver::push_from_cache");
             let pkt = item.to_pkt();
